@@ -727,6 +727,8 @@ func run(sel int, in []int64) []int64 {
 		return runPressure(in)
 	case 3:
 		return runCleanup(in)
+	case 4:
+		return runPipeline(in)
 	}
 	panic("unknown selector")
 }
@@ -745,6 +747,10 @@ func encList(l []int64) []int64 { return append([]int64{int64(len(l))}, l...) }
 
 func laws(sel int, in, got []int64, law func(lsel int, lin []int64, sig string)) {
 	if len(got) == 1 && got[0] == badInput[0] {
+		return
+	}
+	if sel == 4 {
+		lawsPipeline(in, got, law)
 		return
 	}
 	g := &rd{t: got}
